@@ -122,6 +122,355 @@ fn finding(which: &str) -> Result<String, String> {
     }
 }
 
+
+// ---------------------------------------------------------------------------------------------------------------
+// failing-input search: deterministic pseudo-random histories over small universes on the REAL collections, each step
+// checked against a reference model and against the executable form of the representation invariant.  Used only to turn a
+// failed / undecided obligation into a concrete failing input; it never decides a property.
+static HIST: std::sync::Mutex<String> = std::sync::Mutex::new(String::new());
+fn note(h: &str) { if let Ok(mut g) = HIST.lock() { g.clear(); g.push_str(h); } }
+
+macro_rules! h { ($hist:expr, $($arg:tt)*) => { { $hist.push_str(&format!($($arg)*)); note(&$hist); } } }
+
+struct Rng(u64);
+impl Rng {
+    fn next(&mut self) -> u64 { self.0 ^= self.0 << 13; self.0 ^= self.0 >> 7; self.0 ^= self.0 << 17; self.0 }
+    fn below(&mut self, n: u64) -> u64 { self.next() % n }
+}
+
+// executable representation invariant of an arena red-black tree: links consistent, BST order, red-black colours with
+// equal black heights, sentinel unlinked, every slot exactly one of sentinel / in tree / free
+fn wf_exec(n_slots: usize, root: u32, unused: &[u32],
+           node: &dyn Fn(u32) -> (u32, u32, u32, bool), key: &dyn Fn(u32) -> i64) -> Result<usize, String> {
+    let mut in_tree = vec![false; n_slots];
+    let mut count = 0usize;
+    // iterative DFS with (index, lo, hi) bounds; returns black height via explicit post-order
+    fn walk(i: u32, parent: u32, lo: i64, hi: i64, n_slots: usize, in_tree: &mut Vec<bool>, count: &mut usize,
+            node: &dyn Fn(u32) -> (u32, u32, u32, bool), key: &dyn Fn(u32) -> i64, depth: usize) -> Result<(usize, bool), String> {
+        if i == EMPTY_REF { return Ok((0, false)); }
+        if i as usize >= n_slots { return Err(format!("link {} out of the arena", i)); }
+        if i == 0 { return Err("sentinel slot 0 is linked into the tree".to_string()); }
+        if in_tree[i as usize] { return Err(format!("slot {} reached twice", i)); }
+        if depth > 200 { return Err("path longer than 200".to_string()); }
+        in_tree[i as usize] = true; *count += 1;
+        let (p, l, r, red) = node(i);
+        if p != parent { return Err(format!("slot {}: parent link {} but reached from {}", i, p, parent)); }
+        let k = key(i);
+        if !(lo < k && k < hi) { return Err(format!("slot {}: key {} violates the search order ({}, {})", i, k, lo, hi)); }
+        let (bl, lred) = walk(l, i, lo, k, n_slots, in_tree, count, node, key, depth + 1)?;
+        let (br, rred) = walk(r, i, k, hi, n_slots, in_tree, count, node, key, depth + 1)?;
+        if bl != br { return Err(format!("slot {}: black heights {} / {}", i, bl, br)); }
+        if red && (lred || rred) { return Err(format!("slot {}: red with a red child", i)); }
+        Ok((bl + if red { 0 } else { 1 }, red))
+    }
+    walk(root, EMPTY_REF, i64::MIN, i64::MAX, n_slots, &mut in_tree, &mut count, node, key, 0)?;
+    let mut free = vec![false; n_slots];
+    for &u in unused {
+        if u == 0 || u as usize >= n_slots { return Err(format!("free list holds {}", u)); }
+        if free[u as usize] { return Err(format!("slot {} is on the free list twice", u)); }
+        if in_tree[u as usize] { return Err(format!("slot {} is free and in the tree", u)); }
+        free[u as usize] = true;
+    }
+    if count + unused.len() + 1 != n_slots { return Err(format!("{} slots: {} in tree + {} free + sentinel (a slot was lost)", n_slots, count, unused.len())); }
+    // height bound 2*log2(n+1)+1
+    Ok(count)
+}
+
+fn key_tree_wf(t: &KeyExpTree<KK, i32, i32>) -> Result<usize, String> {
+    use i_tree::key::node::Color;
+    let b = &t.store.buffer;
+    wf_exec(b.len(), t.root, &t.store.unused, &|i| { let n = &b[i as usize]; (n.parent, n.left, n.right, n.color == Color::Red) }, &|i| b[i as usize].entity.key.0 as i64)
+}
+fn map_tree_wf(t: &MapTree<i32, i32>) -> Result<usize, String> {
+    use i_tree::map::node::Color;
+    let b = &t.store.buffer;
+    wf_exec(b.len(), t.root, &t.store.unused, &|i| { let n = &b[i as usize]; (n.parent, n.left, n.right, n.color == Color::Red) }, &|i| b[i as usize].entity.key as i64)
+}
+#[derive(Clone, Copy, Default, Debug, PartialEq)]
+struct SV { k: i32, payload: i32 }
+impl i_tree::set::sort::KeyValue<i32> for SV { fn key(&self) -> &i32 { &self.k } }
+fn set_tree_wf(t: &SetTree<i32, SV>) -> Result<usize, String> {
+    use i_tree::set::node::Color;
+    let b = &t.store.buffer;
+    wf_exec(b.len(), t.root, &t.store.unused, &|i| { let n = &b[i as usize]; (n.parent, n.left, n.right, n.color == Color::Red) }, &|i| b[i as usize].value.k as i64)
+}
+
+fn explore_key(seed: u64, steps: usize, nkeys: i32) -> Result<(), String> {
+    let mut rng = Rng(seed.wrapping_mul(0x9E3779B97F4A7C15) | 1);
+    let mut t = KeyExpTree::<KK, i32, i32>::new(if seed % 3 == 0 { 0 } else { 9 });
+    let mut l = KeyExpList::<KK, i32, i32>::new(0);
+    let mut model: Vec<(i32, i32, i32)> = vec![]; // (key, exp, val) of everything inserted since the last clear
+    let mut time = 0i32;
+    let mut hist = String::new();
+    let mut peak = 0usize;
+    let mut vseq = 1000;
+    for _ in 0..steps {
+        let op = rng.below(12);
+        if rng.below(3) == 0 { time += rng.below(3) as i32; }
+        let k = rng.below(nkeys as u64) as i32;
+        let live = |m: &Vec<(i32, i32, i32)>, t: i32| -> Vec<(i32, i32, i32)> { let mut v: Vec<_> = m.iter().cloned().filter(|e| e.1 > t).collect(); v.sort(); v };
+        let lv = live(&model, time);
+        match op {
+            0..=3 => {
+                if lv.iter().any(|e| e.0 == k) { continue; }
+                let e = time + rng.below(5) as i32;
+                vseq += 1;
+                h!(hist, "insert(k={},exp={},val={},t={}); ", k, e, vseq, time);
+                t.insert(KK(k, e), vseq, time); l.insert(KK(k, e), vseq, time);
+                model.retain(|x| !(x.0 == k)); // an expired equal key is superseded
+                model.push((k, e, vseq));
+            }
+            4 | 5 => {
+                let want = lv.iter().filter(|e| e.0 < k).last().map(|e| e.2).unwrap_or(-1);
+                h!(hist, "first_less(t={},k={}); ", time, k);
+                let a = t.first_less(time, -1, KK(k, 0)); let b = l.first_less(time, -1, KK(k, 0));
+                if a != want { return Err(format!("[C01] {}-> tree {} expected {}", hist, a, want)); }
+                if b != want { return Err(format!("[C13] {}-> list {} expected {}", hist, b, want)); }
+            }
+            6 | 7 => {
+                let want = lv.iter().filter(|e| e.0 <= k).last().map(|e| e.2).unwrap_or(-1);
+                h!(hist, "first_less_or_equal(t={},k={}); ", time, k);
+                let a = t.first_less_or_equal(time, -1, KK(k, 0)); let b = l.first_less_or_equal(time, -1, KK(k, 0));
+                if a != want { return Err(format!("[C01] {}-> tree {} expected {}", hist, a, want)); }
+                if b != want { return Err(format!("[C13] {}-> list {} expected {}", hist, b, want)); }
+                let a2 = t.first_less_or_equal_by(time, -1, |x: KK| { x.0.cmp(&k) }); let b2 = l.first_less_or_equal_by(time, -1, |x: KK| x.0.cmp(&k));
+                if a2 != want { return Err(format!("[C01] {}-> tree first_less_or_equal_by {} expected {}", hist, a2, want)); }
+                if b2 != want { return Err(format!("[C13] {}-> list first_less_or_equal_by {} expected {}", hist, b2, want)); }
+            }
+            8 | 9 => {
+                let want = lv.iter().find(|e| e.0 == k).map(|e| e.2);
+                h!(hist, "get_value(t={},k={}); ", time, k);
+                let a = t.get_value(time, KK(k, 0)); let b = l.get_value(time, KK(k, 0));
+                if a != want { return Err(format!("[C06] {}-> tree {:?} expected {:?}", hist, a, want)); }
+                if b != want { return Err(format!("[C13] {}-> list {:?} expected {:?}", hist, b, want)); }
+            }
+            10 => {
+                if rng.below(4) != 0 { continue; }
+                h!(hist, "clear(); ");
+                t.clear(); l.clear(); model.clear(); peak = 0;
+                if rng.below(2) == 0 { time = 0; }
+            }
+            _ => {
+                h!(hist, "is_empty(t={}); ", time);
+                if !lv.is_empty() && t.is_empty() { return Err(format!("[C01] {}-> tree reports empty with live entries", hist)); }
+            }
+        }
+        match key_tree_wf(&t) {
+            Err(e) => return Err(format!("[C02,C11] {}-> invariant broken: {}", hist, e)),
+            Ok(n) => {
+                peak = peak.max(n).max(model.len());
+                if t.store.buffer.len() > 4 * peak + 64 { return Err(format!("[C11] {}-> {} slots allocated for a peak of {} entries", hist, t.store.buffer.len(), peak)); }
+            }
+        }
+    }
+    let want: Vec<i32> = { let mut v: Vec<_> = model.iter().cloned().filter(|e| e.1 > time).collect(); v.sort(); v.iter().map(|e| e.2).collect() };
+    h!(hist, "into_ordered_vec(t={}); ", time);
+    let a = t.into_ordered_vec(time); let b = l.into_ordered_vec(time);
+    if a != want { return Err(format!("[C07] {}-> tree {:?} expected {:?}", hist, a, want)); }
+    if b != want { return Err(format!("[C07,C13] {}-> list {:?} expected {:?}", hist, b, want)); }
+    if a.capacity() > 2 * a.len().max(model.len()) + 64 { return Err(format!("[C19] {}-> export capacity {} for {} entries", hist, a.capacity(), model.len())); }
+    Ok(())
+}
+
+fn explore_map(seed: u64, steps: usize, nkeys: i32) -> Result<(), String> {
+    use i_tree::map::list::MapList;
+    let mut rng = Rng(seed.wrapping_mul(0x9E3779B97F4A7C15) | 1);
+    let mut t = MapTree::<i32, i32>::new(if seed % 3 == 0 { 0 } else { 9 });
+    let mut l = MapList::<i32, i32>::new(0);
+    let mut model = std::collections::BTreeMap::<i32, i32>::new();
+    let mut hist = String::new();
+    let mut vseq = 1000;
+    for _ in 0..steps {
+        let op = rng.below(14);
+        let k = rng.below(nkeys as u64) as i32;
+        match op {
+            0..=4 => {
+                if model.contains_key(&k) { continue; }
+                vseq += 1;
+                // C17: handles taken before an insertion keep designating the same entry
+                let handles: Vec<(i32, u32)> = model.keys().map(|&kk| (kk, t.first_index_less(kk))).collect();
+                h!(hist, "insert({},{}); ", k, vseq);
+                t.insert(k, vseq); l.insert(k, vseq); model.insert(k, vseq);
+                for (kk, h) in handles {
+                    if *t.value_by_index(h) != model[&kk] { return Err(format!("[C17] {}-> handle of key {} designates value {} after the insertion", hist, kk, t.value_by_index(h))); }
+                    if t.first_index_less(kk) != h { return Err(format!("[C17] {}-> handle of key {} changed across an insertion", hist, kk)); }
+                }
+            }
+            5 | 6 => { h!(hist, "delete({}); ", k); t.delete(k); l.delete(k); model.remove(&k); }
+            7 | 8 => {
+                h!(hist, "get_value({}); ", k);
+                let a = t.get_value(k).cloned(); let b = l.get_value(k).cloned(); let w = model.get(&k).cloned();
+                if a != w { return Err(format!("[C04] {}-> tree {:?} expected {:?}", hist, a, w)); }
+                if b != w { return Err(format!("[C13] {}-> list {:?} expected {:?}", hist, b, w)); }
+            }
+            9 | 10 | 11 => {
+                let w = model.range(..=k).next_back().map(|(a, b)| (*a, *b));
+                h!(hist, "first_index_less({}); ", k);
+                let h = t.first_index_less(k); let h2 = t.first_index_less_by(|x| x.cmp(&k));
+                let hl = l.first_index_less(k); let hl2 = l.first_index_less_by(|x| x.cmp(&k));
+                if h != h2 { return Err(format!("[C08] {}-> tree key form {} comparator form {}", hist, h, h2)); }
+                if hl != hl2 { return Err(format!("[C13] {}-> list key form {} comparator form {}", hist, hl, hl2)); }
+                match w {
+                    None => { if h != EMPTY_REF || hl != EMPTY_REF { return Err(format!("[C08] {}-> handle {} / {} expected the empty sentinel", hist, h, hl)); } }
+                    Some((wk, wv)) => {
+                        if h == EMPTY_REF || hl == EMPTY_REF { return Err(format!("[C08] {}-> empty sentinel, expected the entry {}", hist, wk)); }
+                        if *t.value_by_index(h) != wv || *l.value_by_index(hl) != wv { return Err(format!("[C08] {}-> read {} / {} through the handle, expected {}", hist, t.value_by_index(h), l.value_by_index(hl), wv)); }
+                        if op == 10 {
+                            vseq += 1; h!(hist, "write({}); ", vseq);
+                            *t.value_by_index_mut(h) = vseq; *l.value_by_index_mut(hl) = vseq; model.insert(wk, vseq);
+                        } else if op == 11 {
+                            h!(hist, "delete_by_index; ");
+                            t.delete_by_index(h); l.delete_by_index(hl); model.remove(&wk);
+                        }
+                    }
+                }
+            }
+            12 => { if rng.below(5) != 0 { continue; } h!(hist, "clear(); "); t.clear(); l.clear(); model.clear(); }
+            _ => {
+                if t.is_empty() != model.is_empty() || l.is_empty() != model.is_empty() { return Err(format!("[C04] {}-> is_empty {} / {} with {} entries", hist, t.is_empty(), l.is_empty(), model.len())); }
+            }
+        }
+        match map_tree_wf(&t) {
+            Err(e) => return Err(format!("[C02,C11] {}-> invariant broken: {}", hist, e)),
+            Ok(n) => { if n != model.len() { return Err(format!("[C04,C11] {}-> {} entries stored, {} expected", hist, n, model.len())); } }
+        }
+        for (kk, vv) in model.iter() { if t.get_value(*kk) != Some(vv) { return Err(format!("[C04] {}-> key {} lost or altered", hist, kk)); } }
+    }
+    Ok(())
+}
+
+fn explore_set(seed: u64, steps: usize, nkeys: i32) -> Result<(), String> {
+    let mut rng = Rng(seed.wrapping_mul(0x9E3779B97F4A7C15) | 1);
+    let mut t = SetTree::<i32, SV>::new(if seed % 3 == 0 { 0 } else { 9 });
+    let mut l = SetList::<SV>::new(0);
+    let mut model = std::collections::BTreeMap::<i32, i32>::new();
+    let mut hist = String::new();
+    let mut vseq = 1000;
+    for _ in 0..steps {
+        let op = rng.below(14);
+        let k = rng.below(nkeys as u64) as i32;
+        match op {
+            0..=4 => {
+                if model.contains_key(&k) { continue; }
+                vseq += 1;
+                h!(hist, "insert({},{}); ", k, vseq);
+                t.insert(SV { k, payload: vseq }); SetCollection::<i32, SV>::insert(&mut l, SV { k, payload: vseq }); model.insert(k, vseq);
+            }
+            5 | 6 => { h!(hist, "delete({}); ", k); t.delete(&k); SetCollection::<i32, SV>::delete(&mut l, &k); model.remove(&k); }
+            7 | 8 => {
+                h!(hist, "get_value({}); ", k);
+                let a = t.get_value(&k).map(|v| v.payload); let b = SetCollection::<i32, SV>::get_value(&l, &k).map(|v| v.payload); let w = model.get(&k).cloned();
+                if a != w { return Err(format!("[C05] {}-> tree {:?} expected {:?}", hist, a, w)); }
+                if b != w { return Err(format!("[C13] {}-> list {:?} expected {:?}", hist, b, w)); }
+            }
+            9 | 10 => {
+                let w = model.range(..=k).next_back().map(|(a, b)| (*a, *b));
+                h!(hist, "first_index_less({}); ", k);
+                let h = t.first_index_less(&k); let h2 = t.first_index_less_by(|x| x.cmp(&k));
+                if h != h2 { return Err(format!("[C08] {}-> tree key form {} comparator form {}", hist, h, h2)); }
+                match w {
+                    None => { if h != EMPTY_REF { return Err(format!("[C08] {}-> handle {} expected the empty sentinel", hist, h)); } }
+                    Some((wk, wv)) => {
+                        if h == EMPTY_REF { return Err(format!("[C08] {}-> empty sentinel, expected the entry {}", hist, wk)); }
+                        if t.value_by_index(h).payload != wv { return Err(format!("[C08] {}-> read {} through the handle, expected {}", hist, t.value_by_index(h).payload, wv)); }
+                        if op == 10 { h!(hist, "delete_by_index; "); t.delete_by_index(h); SetCollection::<i32, SV>::delete(&mut l, &wk); model.remove(&wk); }
+                    }
+                }
+            }
+            11 => {
+                // C09: neighbour steps from every stored entry, both directions, with the sentinel at the ends
+                h!(hist, "walk; ");
+                let keys: Vec<i32> = model.keys().cloned().collect();
+                for (pos, kk) in keys.iter().enumerate() {
+                    let h = t.first_index_less(kk);
+                    let a = t.index_after(h); let b = t.index_before(h);
+                    let wa = keys.get(pos + 1).cloned(); let wb = if pos > 0 { Some(keys[pos - 1]) } else { None };
+                    let ga = if a == EMPTY_REF { None } else { Some(t.value_by_index(a).k) };
+                    let gb = if b == EMPTY_REF { None } else { Some(t.value_by_index(b).k) };
+                    if ga != wa { return Err(format!("[C09] {}-> successor of {} is {:?} expected {:?}", hist, kk, ga, wa)); }
+                    if gb != wb { return Err(format!("[C09] {}-> predecessor of {} is {:?} expected {:?}", hist, kk, gb, wb)); }
+                    let la = SetCollection::<i32, SV>::index_after(&l, pos as u32); let lb = SetCollection::<i32, SV>::index_before(&l, pos as u32);
+                    if (la == EMPTY_REF) != wa.is_none() || (lb == EMPTY_REF) != wb.is_none() { return Err(format!("[C13] {}-> list neighbour steps at position {}: {} / {}", hist, pos, la, lb)); }
+                }
+            }
+            12 => { if rng.below(5) != 0 { continue; } h!(hist, "clear(); "); t.clear(); SetCollection::<i32, SV>::clear(&mut l); model.clear(); }
+            _ => { if t.is_empty() != model.is_empty() { return Err(format!("[C05] {}-> is_empty {} with {} entries", hist, t.is_empty(), model.len())); } }
+        }
+        match set_tree_wf(&t) {
+            Err(e) => return Err(format!("[C02,C11] {}-> invariant broken: {}", hist, e)),
+            Ok(n) => { if n != model.len() { return Err(format!("[C05,C11] {}-> {} entries stored, {} expected", hist, n, model.len())); } }
+        }
+    }
+    Ok(())
+}
+
+#[derive(Clone, Copy, Debug, PartialEq)]
+struct XV { id: i32, exp: i32 }
+impl i_tree::ExpiredVal<i32> for XV { fn expiration(&self) -> i32 { self.exp } }
+
+fn explore_seg(seed: u64, steps: usize) -> Result<(), String> {
+    use i_tree::seg::exp::{SegExpCollection, SegRange};
+    use i_tree::seg::tree::SegExpTree;
+    let mut rng = Rng(seed.wrapping_mul(0x9E3779B97F4A7C15) | 1);
+    let domains: [(i32, i32); 5] = [(0, 31), (-16, 15), (0, 127), (-1000, 2000), (5, 21)];
+    let (lo, hi) = domains[(seed % 5) as usize];
+    let mut t = match SegExpTree::<i32, i32, XV>::new(SegRange { min: lo, max: hi }) { Some(t) => t, None => return Err(format!("new([{},{}]) refused", lo, hi)) };
+    let len = (hi - lo + 1) as i64;
+    let mut scale = 0; while (32i64 << scale) < len { scale += 1; }
+    let bucket = |x: i32| -> i32 { ((x - lo) as i64 >> scale) as i32 };
+    let mut model: Vec<(i32, i32, XV)> = vec![];
+    let mut time = 0i32;
+    let mut hist = format!("domain [{},{}]: ", lo, hi);
+    let mut idseq = 0;
+    for _ in 0..steps {
+        let op = rng.below(10);
+        if rng.below(3) == 0 { time += rng.below(3) as i32; }
+        let a = lo + rng.below(len as u64) as i32; let b = lo + rng.below(len as u64) as i32;
+        let (a, b) = if a <= b { (a, b) } else { (b, a) };
+        match op {
+            0..=3 => {
+                idseq += 1; let v = XV { id: idseq, exp: time + rng.below(5) as i32 - 1 };
+                h!(hist, "insert([{},{}],id={},exp={}); ", a, b, v.id, v.exp);
+                t.insert_by_range(SegRange { min: a, max: b }, v); model.push((a, b, v));
+            }
+            4..=7 => {
+                let whole = op == 7; let (qa, qb) = if whole { (lo, hi) } else { (a, b) };
+                let partial = !whole && rng.below(4) == 0;
+                h!(hist, "query([{},{}],t={}{}); ", qa, qb, time, if partial { ",take 1" } else { "" });
+                let mut want: Vec<i32> = model.iter().filter(|m| m.2.exp >= time && !(bucket(m.1) < bucket(qa) || bucket(qb) < bucket(m.0))).map(|m| m.2.id).collect();
+                want.sort();
+                let mut got: Vec<i32> = if partial { t.iter_by_range(SegRange { min: qa, max: qb }, time).take(1).map(|v| v.id).collect() } else { t.iter_by_range(SegRange { min: qa, max: qb }, time).map(|v| v.id).collect() };
+                got.sort();
+                if partial { if got.iter().any(|g| !want.contains(g)) || (got.is_empty() && !want.is_empty()) { return Err(format!("[C03] {}-> partial {:?} expected one of {:?}", hist, got, want)); } }
+                else if got != want { return Err(format!("[C03] {}-> {:?} expected {:?}", hist, got, want)); }
+                if whole {
+                    // C16: after a fully consumed whole-domain query only copies of unexpired values are stored
+                    for c in t.chunks.iter() { for e in c.buffer.iter() { if e.val.exp < time { return Err(format!("[C16] {}-> an expired copy (id {}, exp {}) is still stored", hist, e.val.id, e.val.exp)); } } }
+                }
+            }
+            8 => { if rng.below(4) != 0 { continue; } h!(hist, "clear(); "); t.clear(); model.clear(); if rng.below(2) == 0 { time = 0; } }
+            _ => {}
+        }
+        for (ci, c) in t.chunks.iter().enumerate() { for e in c.buffer.iter() { if (e.mask >> ci) & 1 != 1 { return Err(format!("[C03] {}-> chunk {} holds a copy whose mask lacks bit {}", hist, ci, ci)); } } }
+    }
+    Ok(())
+}
+
+fn explore(which: &str, seeds: u64, steps: usize) -> Result<u64, String> {
+    for seed in 1..=seeds {
+        let nkeys = if seed % 4 == 0 { 40 } else { 8 };
+        let r = match which {
+            "key" => explore_key(seed, steps, nkeys),
+            "map" => explore_map(seed, steps, nkeys),
+            "set" => explore_set(seed, steps, nkeys),
+            "seg" => explore_seg(seed, steps),
+            _ => Err("unknown collection".to_string()),
+        };
+        if let Err(e) = r { return Err(format!("seed {}: {}", seed, e)); }
+    }
+    Ok(seeds)
+}
+
 fn main() {
     let args: Vec<String> = std::env::args().collect();
     match args.get(1).map(|s| s.as_str()) {
@@ -132,6 +481,18 @@ fn main() {
             match fail {
                 None => println!("{{\"ok\": true, \"cases\": {}, \"nontrivial\": {}, \"max_n\": {}, \"tpoints\": {}}}", cases, nontrivial, max_n, tp),
                 Some(f) => { println!("{{\"ok\": false, \"cases\": {}, \"counterexample\": {:?}}}", cases, f); std::process::exit(1); }
+            }
+        }
+        Some("explore") => {
+            let seeds: u64 = args[3].parse().unwrap();
+            let steps: usize = args[4].parse().unwrap();
+            // a panic of the real code (debug assertion, overflow, out-of-bounds) is a failing input too
+            let which = args[2].clone();
+            let r = std::panic::catch_unwind(move || explore(&which, seeds, steps));
+            match r {
+                Ok(Ok(n)) => println!("{{\"ok\": true, \"histories\": {}}}", n),
+                Ok(Err(e)) => { println!("{{\"ok\": false, \"counterexample\": {:?}}}", e); std::process::exit(1); }
+                Err(_) => { println!("{{\"ok\": false, \"counterexample\": \"the real code panicked during the exploration (see stderr for the history)\"}}"); std::process::exit(1); }
             }
         }
         Some("finding") => {
